@@ -695,4 +695,156 @@ theorem run_poppedLe (n : Nat) (s : St) (h : SInv s) (hp : PoppedLe s) : PoppedL
   | zero => exact hp
   | succ n ih => unfold run; exact ih _ (step_sinv s h) (step_poppedLe s h hp)
 
+/-! ### progress at termination: when the run is over nothing is left pending -/
+
+structure Sub (k k' : K) : Prop where
+  timers : k'.timers.Sublist k.timers
+  heap : k'.heap.Sublist k.heap
+
+theorem Sub.refl (k : K) : Sub k k := ⟨List.Sublist.refl _, List.Sublist.refl _⟩
+theorem Sub.trans {k1 k2 k3 : K} (h1 : Sub k1 k2) (h2 : Sub k2 k3) : Sub k1 k3 :=
+  ⟨h2.timers.trans h1.timers, h2.heap.trans h1.heap⟩
+theorem Shr.sub {k k' : K} (h : Shr k k') : Sub k k' := ⟨h.timers, h.heap⟩
+
+theorem handleEnded_sub (now : Rat) (n : Nat) (k : K) : Sub k (k.handleEnded now n) := by
+  induction n generalizing k with
+  | zero => exact Sub.refl k
+  | succ n ih =>
+    unfold K.handleEnded
+    split
+    · exact (shr_finish _ _).sub.trans (ih _)
+    · split
+      · rename_i i tl hq
+        refine Sub.trans (k2 := k.setImpl i (fun x => { x with finish := now }))
+          ⟨List.Sublist.refl _, List.Sublist.refl _⟩ ?_
+        exact (shr_finish _ _).sub.trans (ih _)
+      · exact Sub.refl k
+
+theorem execAll_sub (n : Nat) (s : St) (r : Bool) : Sub s.k (execAll n s r).1.k ∧ (execAll n s r).1.done = s.done := by
+  induction n generalizing s r with
+  | zero => exact ⟨Sub.refl _, rfl⟩
+  | succ n ih =>
+    unfold execAll
+    simp only []
+    split
+    · exact ⟨Sub.refl _, rfl⟩
+    · split
+      · exact ⟨Sub.refl _, rfl⟩
+      · split
+        · constructor
+          · simpa using Sub.refl s.k
+          · simp
+        · rename_i j hj
+          obtain ⟨i1, i2⟩ := ih { (pick _ s).2 with
+              k := ({ (pick _ s).2.k with timers := removeNth (pick _ s).2.k.timers j } : K).fire
+                     ((pick _ s).2.k.timers.getD j default),
+              fired := (pick _ s).2.fired ++ [((pick _ s).2.now, (pick _ s).2.k.timers.getD j default)] } true
+          refine ⟨Sub.trans ?_ i1, by rw [i2]; simp⟩
+          simp only [pick_k]
+          exact Sub.trans (k2 := { s.k with timers := removeNth s.k.timers j })
+            ⟨removeNth_sublist _ _, List.Sublist.refl _⟩ (shr_fire _ _).sub
+
+theorem timersLoop_sub (n : Nat) (s : St) : Sub s.k (timersLoop n s).k ∧ (timersLoop n s).done = s.done := by
+  induction n generalizing s with
+  | zero => exact ⟨Sub.refl _, rfl⟩
+  | succ n ih =>
+    unfold timersLoop
+    simp only []
+    obtain ⟨e1, e2⟩ := execAll_sub s.k.timers.length s false
+    have h2 : Sub s.k ((execAll s.k.timers.length s false).1.k.handleEndedAll (execAll s.k.timers.length s false).1.now) :=
+      e1.trans (handleEnded_sub _ _ _)
+    split
+    · obtain ⟨i1, i2⟩ := ih { (execAll s.k.timers.length s false).1 with
+        k := (execAll s.k.timers.length s false).1.k.handleEndedAll (execAll s.k.timers.length s false).1.now }
+      exact ⟨h2.trans i1, by rw [i2]; exact e2⟩
+    · exact ⟨h2, e2⟩
+
+theorem outerDelta_none (s : St) (h : SInv s) (hd : outerDelta s = none) : s.k.timers = [] ∧ s.k.heap = [] := by
+  unfold outerDelta timeDelta at hd
+  cases hh : minDate (s.k.heap.map (·.date)) with
+  | none =>
+    rw [hh] at hd
+    simp only [Option.map] at hd
+    cases ht : minDate (s.k.timers.map (·.date)) with
+    | none =>
+      have e1 := minDate_none ht
+      have e2 := minDate_none hh
+      simp at e1 e2
+      exact ⟨e1, e2⟩
+    | some t => rw [ht] at hd; simp at hd
+  | some m =>
+    exfalso
+    rw [hh] at hd
+    simp only [Option.map] at hd
+    obtain ⟨e, he, hem⟩ := List.mem_map.mp (minDate_mem _ _ hh)
+    have := (h.d.heap e he).1
+    have hn : m - s.now ≥ 0 := by rw [← hem]; grind
+    simp only [hn, if_true] at hd
+    cases ht : minDate (s.k.timers.map (·.date)) with
+    | none => rw [ht] at hd; simp at hd
+    | some t => rw [ht] at hd; simp only [Option.map] at hd; split at hd <;> cases hd
+
+/-- when the run stops (`done`), no timer and no action is pending -/
+def NoPend (s : St) : Prop := s.done = true → s.k.timers = [] ∧ s.k.heap = []
+
+theorem sublist_nil {α} {l : List α} (h : l.Sublist []) : l = [] := List.sublist_nil.mp h
+
+theorem outer_noPend (s : St) (h : SInv s) (hdone : s.done = false) : NoPend (outer s) := by
+  rw [outer_eq]
+  split
+  · intro hd; simp only at hd; rw [hdone] at hd; cases hd
+  · cases hdl : outerDelta s with
+    | some d =>
+      intro hd
+      exfalso
+      obtain ⟨_, t2⟩ := timersLoop_sub ((solveStep s (some d)).k.timers.length + 1) (solveStep s (some d))
+      have hsd : (solveStep s (some d)).done = false := by
+        unfold solveStep
+        simp only [popWindow_done]
+        exact hdone
+      unfold outerTail at hd
+      simp only [Option.isNone, Bool.false_and, Bool.false_eq_true, if_false] at hd
+      rw [t2, hsd] at hd; cases hd
+    | none =>
+      intro _
+      obtain ⟨e1, e2⟩ := outerDelta_none s h hdl
+      obtain ⟨t1, _⟩ := timersLoop_sub ((solveStep s none).k.timers.length + 1) (solveStep s none)
+      have e1' : (solveStep s none).k.timers = [] := e1
+      have e2' : (solveStep s none).k.heap = [] := e2
+      simp only []
+      generalize timersLoop ((solveStep s none).k.timers.length + 1) (solveStep s none) = s2 at t1 ⊢
+      have g1 : s2.k.timers = [] := sublist_nil (t1.timers.trans (by rw [e1']; exact List.Sublist.refl _))
+      have g2 : s2.k.heap = [] := sublist_nil (t1.heap.trans (by rw [e2']; exact List.Sublist.refl _))
+      have hk2 := (shr_foldl_kill s2.k.alive s2.k).sub
+      have g3 : (s2.k.alive.foldl (fun k a => k.kill a) s2.k).timers = [] :=
+        sublist_nil (hk2.timers.trans (by rw [g1]; exact List.Sublist.refl _))
+      have g4 : (s2.k.alive.foldl (fun k a => k.kill a) s2.k).heap = [] :=
+        sublist_nil (hk2.heap.trans (by rw [g2]; exact List.Sublist.refl _))
+      unfold outerTail
+      simp only []
+      split <;> (try split) <;>
+        first
+          | exact ⟨g1, g2⟩
+          | exact ⟨g3, g4⟩
+
+theorem step_noPend (s : St) (h : SInv s) (hp : NoPend s) : NoPend (step s) := by
+  unfold step
+  split
+  · exact hp
+  · rename_i hc
+    have hdone : s.done = false := by
+      cases hd : s.done with
+      | false => rfl
+      | true => exfalso; apply hc; simp [hd]
+    split
+    · exact outer_noPend s h hdone
+    · intro hd
+      have : (subround s).done = s.done := by simp [subround]
+      rw [this, hdone] at hd; cases hd
+
+theorem run_noPend (n : Nat) (s : St) (h : SInv s) (hp : NoPend s) : NoPend (run n s) := by
+  induction n generalizing s with
+  | zero => exact hp
+  | succ n ih => unfold run; exact ih _ (step_sinv s h) (step_noPend s h hp)
+
 end SgVerif.TimeCore
